@@ -8,6 +8,7 @@ assignment (R-DEF); linking under preserve_stream_pos; H-CUR.
 """
 import ast
 from sa.canon import U
+from sa import canon
 from sa.world import get_world
 from sa import dwconf, layout, expr, paths, streams, dispatch, literals, hrules
 from sa.absint import Ctor, Obj, FuncV, Unknown
@@ -258,8 +259,14 @@ def check_tables(ctx, w):
     src = U(k.node)
     ctx.ob('G-TAB', k.construct, 'FDE header = initial length, CIE pointer, then location and range in the CIE\'s FDE encoding',
            "fields = [entry_structs.Dwarf_initial_length('length'), entry_structs.Dwarf_offset('CIE_pointer')]" in src and
-           "fields.append(formats[basic_encoding]('initial_location'))\n    fields.append(formats[basic_encoding]('address_range'))" in src.replace('        ', '    ') and
-           "encoding = cie.augmentation_dict['FDE_encoding']" in src)
+           "fields.append(formats[basic_encoding]('initial_location'))\n    fields.append(formats[basic_encoding]('address_range'))" in src.replace('        ', '    '))
+    # LSB 10.6.1.1.1 / gcc unwind-dw2-fde: the FDE pointer encoding is the CIE's 'R' datum and DW_EH_PE_absptr when the augmentation has no
+    # 'R' ('', 'zL', 'zP', 'zS' are all in the property's quantifier): the lookup must have that default, not fail
+    enc = tr.get('encoding')
+    accepted = [expr.nfs(ast.parse(t, mode='eval').body, kenv) for t in (
+        "cie.augmentation_dict.get('FDE_encoding', DW_EH_encoding_flags['DW_EH_PE_absptr'])", "cie.augmentation_dict.get('FDE_encoding', 0)")]
+    ctx.ob('G-TAB', k.construct, "FDE pointer encoding = the CIE's 'R' datum, absptr when there is none", enc is not None and len(enc) == 1 and enc[0][0] == '=' and enc[0][1] in accepted,
+           got=enc, expected=accepted[:1], msg="an .eh_frame CIE without 'R' has absolute-pointer FDEs; a subscript fails on it (KeyError)")
     ctx.ob('G-TAB', k.construct, 'encoding split', tr.get('basic_encoding') == [('=', expr.spec_nf('encoding & 0x0f'))] and
            tr.get('encoding_modifier') == [('=', expr.spec_nf('encoding & 0xf0'))])
     fixed = [expr.nfs(r, kenv) for c, r, p in paths.returns_with_conds(k.node)
@@ -445,7 +452,18 @@ def check_interp(ctx, w):
     src = U(f.node)
     ctx.ob('G-INT', f.construct, 'FDE starts from the last row of the CIE at its initial location',
            'cur_line = copy.copy(last_line_in_CIE)' in src and "cur_line['pc'] = self['initial_location']" in src and 'cie_decoded_table = cie.get_decoded()' in src)
-    ctx.ob('G-INT', f.construct, 'final row appended when it carries a rule', "if cur_line['cfa'].reg is not None or len(cur_line) > 2:\n        table.append(cur_line)" in src)
+    # DWARF 6.4.1: a row is a CFA rule plus register rules; the CFA rule is register+offset *or* an expression (DW_CFA_def_cfa_expression).
+    # The last row exists when it carries any of them: CFA register, CFA expression, or a register rule (more keys than pc and cfa).
+    tail = [st for st in f.node.body if isinstance(st, ast.If) and any(U(x) == 'table.append(cur_line)' for x in st.body)]
+    disj = set()
+    if len(tail) == 1:
+        t = tail[0].test
+        disj = set(U(x) for x in (t.values if isinstance(t, ast.BoolOp) and isinstance(t.op, ast.Or) else [t]))
+    want = set(U(ast.parse(x, mode='eval').body) for x in ("cur_line['cfa'].reg is not None", "cur_line['cfa'].expr is not None", 'len(cur_line) > 2'))
+    canon_want = set(canon.norm_text(x).strip() for x in want)
+    ctx.ob('G-INT', f.construct, 'final row appended when it carries a rule (CFA register, CFA expression or a register rule)',
+           len(tail) == 1 and (disj == want or disj == canon_want), got=sorted(disj), expected=sorted(want),
+           msg='a table whose only rule is a CFA expression (DW_CFA_def_cfa_expression) loses its row, and the FDEs of such a CIE start without a CFA rule')
     ctx.ob('G-INT', f.construct, 'kept CFA parts come from the current row', src.count("offset=cur_line['cfa'].offset") == 1 and src.count("reg=cur_line['cfa'].reg") == 2)
     ctx.ob('G-INT', f.construct, 'instructions interpreted in order', 'for instr in self.instructions:' in src and 'name = instruction_name(instr.opcode)' in src)
     # sibling: describer
@@ -676,6 +694,10 @@ def check_link(ctx, w):
 
 ST = 'dwarf/structs.py'
 MUTANTS = [
+    ('final-row-no-expr', CF, "        if (cur_line['cfa'].reg is not None or cur_line['cfa'].expr is not None or\n                len(cur_line) > 2):", "        if (cur_line['cfa'].reg is not None or\n                len(cur_line) > 2):", 'G-INT'),
+    ('fde-encoding-subscript', CF, "cie.augmentation_dict.get('FDE_encoding', DW_EH_encoding_flags['DW_EH_PE_absptr'])", "cie.augmentation_dict['FDE_encoding']", 'G-TAB'),
+    ('fde-encoding-default-omit', CF, "cie.augmentation_dict.get('FDE_encoding', DW_EH_encoding_flags['DW_EH_PE_absptr'])",
+     "cie.augmentation_dict.get('FDE_encoding', DW_EH_encoding_flags['DW_EH_PE_omit'])", 'G-TAB'),
     ('peek-relative', CF, "            entry_structs.the_Dwarf_offset, self.stream,\n            offset + entry_structs.initial_length_field_size())", "            entry_structs.the_Dwarf_offset, self.stream)", 'E-i'),
     ('peek-plus4', CF, "            offset + entry_structs.initial_length_field_size())", "            offset + 4)", 'E-i'),
     ('unbound-last-line', CF, "                last_line_in_CIE = dict()\n", "", 'R-DEF'),
